@@ -472,8 +472,23 @@ func c12Unwrap(c *Ctx) {
 		return
 	}
 	ts := ev.TS
-	errP := ev.Param(fn, fn.Params[0].Name())
-	target := ev.Param(fn, fn.Params[1].Name())
+	// the error under test: the parameter of type error; the target type: whatever the first assignability test
+	// compares with (a parameter upstream; a field of the receiver when the function became a method of a matcher)
+	errIdx := -1
+	for i, prm := range fn.Params {
+		if types.TypeString(prm.Type(), nil) == "error" {
+			errIdx = i
+		}
+	}
+	if errIdx < 0 {
+		c.Unresolved(name, "no error parameter")
+		return
+	}
+	errP := ev.Param(fn, fn.Params[errIdx].Name())
+	if errP == nil {
+		errP = ts.intern(&T{Op: "param", Aux: fn.Params[errIdx].Name(), Typ: fn.Params[errIdx].Type()})
+	}
+	var target *T
 	ok := true
 	seen := map[string]bool{}
 	for _, p := range paths {
@@ -489,7 +504,19 @@ func c12Unwrap(c *Ctx) {
 				assign = append(assign, e)
 			}
 		}
-		if len(assign) == 0 || len(assign[0].Args) != 1 || assign[0].Args[0] != target || !(assign[0].Recv.Op == "app" && hasPrefix(assign[0].Recv.Aux, "TypeOf@") && assign[0].Recv.Args[0] == errP) {
+		if len(assign) > 0 && len(assign[0].Args) == 1 && target == nil {
+			target = assign[0].Args[0]
+			// it must come from outside the search loop: a parameter or a field of a parameter
+			if !fromParamsOnly(target) {
+				target = nil
+			}
+		}
+		for _, a := range assign {
+			if len(a.Args) != 1 || a.Args[0] != target {
+				target = nil
+			}
+		}
+		if len(assign) == 0 || target == nil || !(assign[0].Recv.Op == "app" && hasPrefix(assign[0].Recv.Aux, "TypeOf@") && assign[0].Recv.Args[0] == errP) {
 			bad("the first step must test whether the error's own type is assignable to the target type")
 			continue
 		}
@@ -547,8 +574,23 @@ func c12Unwrap(c *Ctx) {
 			list := uw[0].Res[0]
 			// every recursive call is on an element of the list with the same target; a true result returns true
 			for i, r := range rec {
-				a := r.Args[0]
-				if !(a.Op == "init" && a.Args[0].Op == "iaddr" && a.Args[0].Args[0] == list) || r.Args[1] != target {
+				// same call as the one being evaluated except for the error argument
+				fa := fullArgs(r)
+				sameRest := len(fa) == len(fn.Params)
+				var a *T
+				for j := range fa {
+					if !sameRest {
+						break
+					}
+					if j == errIdx {
+						a = fa[j]
+						continue
+					}
+					if fa[j] != ts.intern(&T{Op: "param", Aux: fn.Params[j].Name(), Typ: fn.Params[j].Type()}) {
+						sameRest = false
+					}
+				}
+				if a == nil || !(a.Op == "init" && a.Args[0].Op == "iaddr" && a.Args[0].Args[0] == list) || !sameRest {
 					bad("recursion must be on an element of the joined errors with the same target type")
 				}
 				if i < len(rec)-1 && p.State.Facts.Truth(ts, r.Res[0]) == triT {
@@ -595,6 +637,7 @@ func c12Unwrap(c *Ctx) {
 	if ok {
 		c.Ok(name, pos, fmt.Sprintf("%d paths: own type first; Unwrap() error followed; every element of Unwrap() []error searched; otherwise false", len(paths)))
 	}
+	errorTypeInit(c)
 	// ErrorTypesMatch: nil error ⇒ false; otherwise errorAs(err, type derived from target)
 	if etm := c.P.Func("util.ErrorTypesMatch"); etm == nil {
 		c.Unresolved("util.ErrorTypesMatch", "not found")
@@ -614,10 +657,13 @@ func c12Unwrap(c *Ctx) {
 					good = false
 					c.Fail(c.fn(etm), c.P.FuncPos(etm), "a nil error must not match any type", pathTrace(ev, p))
 				}
-			} else if len(as) != 1 || as[0].Args[0] != e0 || p.State.Facts.Truth(ev.TS, p.Rets[0]) != p.State.Facts.Truth(ev.TS, as[0].Res[0]) {
+			} else if len(as) != 1 || !hasArg(as[0], e0) || p.State.Facts.Truth(ev.TS, p.Rets[0]) != p.State.Facts.Truth(ev.TS, as[0].Res[0]) {
 				good = false
 				c.Fail(c.fn(etm), c.P.FuncPos(etm), "a non-nil error must be classified by errorAs(err, target type)", pathTrace(ev, p))
-			} else if msg := targetTypeDerivation(c, ev, p, ev.Param(etm, etm.Params[1].Name()), as[0].Args[1]); msg != "" {
+			} else if used := reflectTypeArg(ev, p, as[0]); used == nil {
+				good = false
+				c.Fail(c.fn(etm)+"#target-type", c.P.FuncPos(etm), "the type the error is matched against is not identifiable in the call of errorAs", pathTrace(ev, p))
+			} else if msg := targetTypeDerivation(c, ev, p, ev.Param(etm, etm.Params[1].Name()), used); msg != "" {
 				good = false
 				c.Fail(c.fn(etm)+"#target-type", c.P.FuncPos(etm), msg, pathTrace(ev, p))
 			}
@@ -682,7 +728,7 @@ func targetTypeDerivation(c *Ctx, ev *Evaluator, p *Path, target, used *T) strin
 	}
 	implements := func(t *T) tri {
 		for _, e := range p.Events() {
-			if isCall(e, "Implements") && e.Recv == t && len(e.Args) == 1 && isGlobal(e.Args[0], "errorType") {
+			if isCall(e, "Implements") && e.Recv == t && len(e.Args) == 1 && isErrorTypeGlobal(e.Args[0]) {
 				return F.Truth(ts, e.Res[0])
 			}
 		}
@@ -720,6 +766,145 @@ func targetTypeDerivation(c *Ctx, ev *Evaluator, p *Path, target, used *T) strin
 		return "the path does not establish whether the target type is an interface / implements error"
 	}
 	return ""
+}
+
+func hasArg(e *Event, x *T) bool {
+	for _, a := range fullArgs(e) {
+		if a == x {
+			return true
+		}
+	}
+	return false
+}
+
+// reflectTypeArg: the reflect.Type a call is given: an argument of that type, or the reflect.Type field of a struct
+// (value or fresh allocation) passed as receiver or argument.
+func reflectTypeArg(ev *Evaluator, p *Path, e *Event) *T {
+	isRT := func(t types.Type) bool { return t != nil && types.TypeString(t, nil) == "reflect.Type" }
+	for _, a := range fullArgs(e) {
+		if isRT(a.Typ) || (a.Op == "app" && (hasPrefix(a.Aux, "TypeOf@") || hasPrefix(a.Aux, "Elem@") || hasPrefix(a.Aux, "PointerTo@"))) {
+			return a
+		}
+	}
+	for _, a := range fullArgs(e) {
+		if a.Op == "struct" {
+			for _, f := range a.Args {
+				if f != nil && (isRT(f.Typ) || (f.Op == "app" && (hasPrefix(f.Aux, "TypeOf@") || hasPrefix(f.Aux, "Elem@") || hasPrefix(f.Aux, "PointerTo@")))) {
+					return f
+				}
+			}
+		}
+		if n := namedOfPtr(a.Typ); n != nil {
+			if s, ok := n.Underlying().(*types.Struct); ok {
+				for i := 0; i < s.NumFields(); i++ {
+					if isRT(s.Field(i).Type()) {
+						if v := ev.LoadField(p.State, a, s.Field(i).Name()); v != nil {
+							return v
+						}
+					}
+				}
+			}
+		}
+	}
+	return nil
+}
+
+// fromParamsOnly: the term denotes something the function was given (a parameter, a field of one, a value loaded
+// through one), not something it computed from calls made inside.
+func fromParamsOnly(t *T) bool {
+	if t == nil {
+		return false
+	}
+	switch t.Op {
+	case "param", "const", "nil", "lin":
+		if t.Op == "lin" {
+			for _, s := range t.Lin.Syms {
+				if !fromParamsOnly(s) {
+					return false
+				}
+			}
+		}
+		return true
+	case "init", "faddr", "iaddr", "fld", "extract":
+		for _, a := range t.Args {
+			if !fromParamsOnly(a) {
+				return false
+			}
+		}
+		return len(t.Args) > 0
+	}
+	return false
+}
+
+// isErrorTypeGlobal: the package-level reflect.Type of package util (upstream: errorType, the type of `error`); that
+// it is initialised with reflect.TypeOf((*error)(nil)).Elem() is checked by errorTypeInit.
+func isErrorTypeGlobal(t *T) bool {
+	if t == nil || t.Op != "init" || t.Args[0].Op != "global" || !strings.HasPrefix(t.Args[0].Aux, "util.") {
+		return false
+	}
+	pt, ok := t.Args[0].Typ.(*types.Pointer)
+	return ok && types.TypeString(pt.Elem(), nil) == "reflect.Type"
+}
+
+// errorTypeInit: the package-level reflect.Type that Implements is tested against must be the type `error` itself:
+// reflect.TypeOf((*error)(nil)).Elem(), assigned once by the package initialiser.
+func errorTypeInit(c *Ctx) {
+	pkg := c.P.SSAPkg[c.P.pkgPath("internal/util")]
+	if pkg == nil {
+		c.Unresolved("util.errorType", "package not loaded")
+		return
+	}
+	n, good := 0, 0
+	for _, fn := range c.P.Funcs {
+		if fn.Pkg != pkg {
+			continue
+		}
+		for _, b := range fn.Blocks {
+			for _, in := range b.Instrs {
+				st, ok := in.(*ssa.Store)
+				if !ok {
+					continue
+				}
+				g, isG := st.Addr.(*ssa.Global)
+				if !isG || types.TypeString(g.Type().(*types.Pointer).Elem(), nil) != "reflect.Type" {
+					continue
+				}
+				n++
+				// Elem() invoked on TypeOf(<nil *error>)
+				el, ok1 := st.Val.(*ssa.Call)
+				if !ok1 || !el.Call.IsInvoke() || el.Call.Method.Name() != "Elem" {
+					continue
+				}
+				tof, ok2 := el.Call.Value.(*ssa.Call)
+				if !ok2 {
+					continue
+				}
+				if cal := calleeOf(&tof.Call); cal == nil || qualName(cal) != "reflect.TypeOf" || len(tof.Call.Args) != 1 {
+					continue
+				}
+				mi, ok3 := tof.Call.Args[0].(*ssa.MakeInterface)
+				if !ok3 {
+					continue
+				}
+				if k, isK := mi.X.(*ssa.Const); isK && k.Value == nil && types.TypeString(k.Type(), nil) == "*error" && strings.HasPrefix(fn.Name(), "init") {
+					good++
+				}
+			}
+		}
+	}
+	if n == 1 && good == 1 {
+		c.Ok("util.errorType", "", "= reflect.TypeOf((*error)(nil)).Elem(), assigned by the initialiser only")
+	} else {
+		c.Fail("util.errorType", "", fmt.Sprintf("the reflect.Type that error targets are tested against must be assigned once, by the initialiser, as reflect.TypeOf((*error)(nil)).Elem() (%d assignments, %d of that form)", n, good), "")
+	}
+}
+
+// derefInit: for a value loaded from memory, the address it was loaded from; other terms unchanged.
+func derefInit(t *T) *T {
+	if t != nil && t.Op == "init" && len(t.Args) == 1 {
+		return t.Args[0]
+	}
+	return t
 }
 
 func findTypeOK(p *Path, x *T, iface string) *T {
